@@ -16,6 +16,7 @@ import (
 	"strconv"
 	"strings"
 	"sync"
+	"sync/atomic"
 	"time"
 
 	"verif/internal/fw"
@@ -99,6 +100,13 @@ func main() {
 	}
 
 	var mu sync.Mutex
+	// enough: once this many cases have produced a violation that is not a listed known finding the
+	// verdict is settled (exit 1); the remaining batches are skipped (a tree that violates a property
+	// often makes every further case slow: leaked or spinning goroutines, watchdogs)
+	const enough = 30
+	var unlisted atomic.Int64
+	var skipped atomic.Int64
+	kfEarly := loadKnown()
 	verdicts := map[int]*fw.Verdict{}
 	var crashes []found
 	broken := []string{}
@@ -147,8 +155,20 @@ func main() {
 				var v fw.Verdict
 				if err := json.Unmarshal([]byte(body), &v); err == nil {
 					mu.Lock()
+					_, seen := verdicts[v.Idx]
 					verdicts[v.Idx] = &v
 					mu.Unlock()
+					if !seen && v.Status == fw.Violation {
+						for _, f := range v.Findings {
+							if f.Status != fw.Violation {
+								continue
+							}
+							if k, ok := kfEarly[f.Sig(id)]; !ok || k.Status != "known" {
+								unlisted.Add(1)
+								break
+							}
+						}
+					}
 				}
 				open = -1
 			case 'D':
@@ -200,6 +220,10 @@ func main() {
 			go func(c fw.Case) {
 				defer wg.Done()
 				defer func() { <-sem }()
+				if unlisted.Load() >= enough && replayIdx < 0 {
+					skipped.Add(1)
+					return
+				}
 				tag := fmt.Sprintf("case-%d", c.Idx)
 				cf := writeCases(runDir, tag, []fw.Case{c})
 				j, l := runWorker(tag, "-cases", cf)
@@ -250,6 +274,10 @@ func main() {
 					if c.Idx%n == sh || replayIdx >= 0 {
 						mine = append(mine, c)
 					}
+				}
+				if unlisted.Load() >= enough && replayIdx < 0 {
+					skipped.Add(int64(len(mine)))
+					return
 				}
 				cf := writeCases(runDir, fmt.Sprintf("shard-%d", sh), mine)
 				defer os.Remove(cf)
@@ -417,6 +445,9 @@ func main() {
 		"hook_sites_hit":      hooks,
 		"known_findings_seen": ks,
 		"unlisted_violations": violOrder,
+	}
+	if n := skipped.Load(); n > 0 {
+		cov["cases_skipped_after_enough_violations"] = n
 	}
 	if p.Race {
 		cov["race_report_blocks"] = raceBlocks
